@@ -282,10 +282,18 @@ def r15_hash_eq(ctx):
     # decoders/constructors normalise sequences to tuples
     um = ctx.p.cls(META, 'UnknownMetaMessage')
     init = um.methods.get('__init__')
-    txt = unparse(init.node)
-    ctx.require('tuple(data)' in txt, 'R15.5', 'UnknownMetaMessage.data', ctx.where(init), 'data is not normalised to a tuple', construct=f'{init.qname}::tuple')
+    ai2 = smf.make_interp(ctx)
+    for given, label in ((AList([1, SeqVar('U', 255)], 'list'), 'a list'), (AList([1, 2], 'bytearray'), 'a bytearray'), (None, 'None')):
+        outs = ai2.explore(lambda: ai2.apply(ClassRef(um), [0x60], {'data': given} if given is not None else {}, None))
+        ok = len(outs) == 1 and outs[0].kind == 'return' and isinstance(outs[0].value, AObj)
+        if ok:
+            d_ = outs[0].value.attrs.get('data')
+            ok = (isinstance(d_, AList) and d_.kind == 'tuple') or isinstance(d_, tuple)
+        ctx.require(ok, 'R15.5', f'UnknownMetaMessage(data={label})', ctx.where(init), f'data given as {label} is stored as {outs}: not normalised to a tuple '
+                    '(unhashable, and unequal to what the reader builds)', construct=f'{init.qname}::tuple')
     sd = ctx.p.cls(MSG, 'SysexData')
-    ctx.require(any(unparse(b) == 'tuple' for b in sd.node.bases), 'R15.5', 'SysexData', f'{sd.module.relpath}:{sd.node.lineno} SysexData',
+    ctx.require(any(k.name == 'tuple' or unparse(b) == 'tuple' for k in [sd] for b in sd.node.bases) or
+                any(getattr(k, 'name', '') == 'tuple' for k in ctx.p.mro(sd)), 'R15.5', 'SysexData', f'{sd.module.relpath}:{sd.node.lineno} SysexData',
                 'SysexData is not a tuple', construct=f'{sd.qname}::tuple')
 
 
